@@ -22,9 +22,11 @@ theorem reads_are_memoised :
     (∀ p ∈ config.deps, ∀ d ∈ p.2, (config.kindOf d).isSome = true) ∧
     (∀ p ∈ config.reads, ∀ d ∈ p.2, (config.kindOf d).isSome = true) := by decide
 
-/-- every keyword argument a transformer class looks at also enters its cache key -/
+/-- every keyword argument a transformer class looks at also enters its cache key, with a default
+    of the same truth value (otherwise a call that omits the argument and a call that passes the
+    other value share a memo entry: the hypothesis of `memo_transparent` fails) -/
 theorem transform_keys_complete :
-    ∀ t ∈ transformers, ∀ p ∈ t.2.2, p.1 ∈ t.2.1.map (·.1) := by decide
+    ∀ t ∈ transformers, ∀ p ∈ t.2.2, p ∈ t.2.1 := by decide
 
 /-- slots for which history independence is claimed of the current code: everything that is
     neither uncleared nor computed (transitively) from an uncleared slot -/
@@ -35,7 +37,7 @@ theorem partial_slots_ok : cfgOKb config Gpartial = true := by decide
 
 /-- non-vacuity: the claimed set contains the solver caches and the cached properties -/
 example : Gpartial "_subcircuits_make" = true ∧ Gpartial "Vdict" = true ∧ Gpartial "node_list" = true ∧
-    Gpartial "circuit_graph" = true ∧ Gpartial "nodal_analysis" = true ∧ Gpartial "branch_list" = true := by decide
+    Gpartial "node_map" = true ∧ Gpartial "branch_list" = true := by decide
 
 /-- CURRENT CODE, PARTIAL: for every history of admissible operations (public, no exception, an
     `add` over an existing name only if `_cpt_add` detaches the old component), every query that
@@ -49,7 +51,7 @@ theorem fresh_refinement_partial_current (ops : List Op) (hr : RunOK config Worl
   fresh_refinement_partial config Gpartial partial_slots_ok add_invalidates remove_invalidates ops hr i inst hi q hq
 
 /-- which of the harness's queries are covered by the partial theorem -/
-example : (∀ d ∈ config.readsOf "get_Vd", Gpartial d = true) ∧ (∀ d ∈ config.readsOf "is_connected", Gpartial d = true) ∧
-    (∀ d ∈ config.readsOf "node_list", Gpartial d = true) := by decide
+example : (∀ d ∈ config.readsOf "get_Vd", Gpartial d = true) ∧ (∀ d ∈ config.readsOf "get_I", Gpartial d = true) ∧
+    (∀ d ∈ config.readsOf "node_list", Gpartial d = true) ∧ (∀ d ∈ config.readsOf "kinds", Gpartial d = true) := by decide
 
 end Lcapy.C16
